@@ -21,7 +21,7 @@ def _run_check(prop: str, tier: str) -> int:
         ctx = Ctx(prop, tier)
         mod.run(ctx)
         rc = ctx.finish()
-        if rc == 0 and tier == "thorough" and hasattr(mod, "selftest"):
+        if rc == 0 and tier == "thorough":
             from .selftest import run_selftest
             rc2 = run_selftest(prop, mod)
             if rc2:
